@@ -74,6 +74,11 @@ def den_of(w):
     return term(d)
 
 
+def _pow2(k):
+    from pyvc import theory as T
+    return T.pow2(k)
+
+
 def trunc(I, x, w):
     """x mod 2**w, left as x when 0 <= x < 2**w is entailed by the path"""
     z3 = _z3()
@@ -179,6 +184,11 @@ def add_net(I, net):
         else:
             raise Unsupported('unstructured symbolic select tuple')
         pdesc = dict(kind='ints', vals=[], _len=param.length, _inb=inb)
+    elif op in 'm@' and isinstance(param, tuple) and len(param) == 2 and isinstance(param[1], SObj) and \
+            param[1].cls in ('MemBlock', 'RomBlock') and isinstance(param[0], (int, Sym)):
+        mf = param[1].fields
+        pdesc = dict(kind='mem', memid=term(param[0]), mem_id=term(mf['id']), addrwidth=term(mf['addrwidth']),
+                     bitwidth=term(mf['bitwidth']))
     elif isinstance(param, tuple) and all(isinstance(p, (int, Sym)) and not isinstance(p, bool) for p in param):
         pdesc = dict(kind='ints', vals=[p if isinstance(p, int) else term(p) for p in param])
     else:
@@ -206,6 +216,13 @@ def add_net(I, net):
         return None
     if d.fields.get('_den') is not None:
         I.st.vc('call:add_net.destination has no other driver', z3.BoolVal(False), kind='callpre')
+    if op == 'm':
+        # a read port: the word stored at the address (an uninterpreted function of memory and address)
+        MEM = z3.Function('MEMWORD', z3.IntSort(), z3.IntSort(), z3.IntSort())
+        word = MEM(term(param[0]), den_of(args[0]))
+        I.st.assume(z3.And(word >= 0, word < _pow2(bw_of(d))))
+        d.fields['_den'] = Sym(word)
+        return None
     full = netsem(I, op, param, [(den_of(w), bw_of(w)) for w in args], bw_of(d))
     d.fields['_den'] = Sym(trunc(I, full, bw_of(d)))
     return None
